@@ -88,6 +88,42 @@ def mask_decision_term(t, pvar):
     return None
 
 
+def directory_only_with_can_open_new(F, S):
+    """R-ORDER: the constructor creates a missing parent directory only when the open mode allows creating something new:
+    every call of XFile::NewDirectory it reaches is dominated by `openMode & CanOpenNew` being set. (TranslateFlags would still
+    refuse the open afterwards, but the directory would already exist.)"""
+    from ..through import find_calls
+    from ..flow import substitute
+    out = []
+    en = F.enums.get(FW + "::OpenMode")
+    can_new = {e["name"]: e["value"] for e in en["enumerators"]}["CanOpenNew"]
+    n = 0
+    for fn in [f for f in F.fns(FW + "::FileWriter") if f.d.get("ctor") is not False and len(f.params) == 2 and f.cfg]:
+        pm = ("var", fn.params[1]["n"], fn.params[1]["d"])
+        mask = ("op", "&", pm, ("const", can_new))
+
+        def nonzero(t):
+            return t == mask or (t[0] == "op" and t[1] == "!=" and ((t[2] == mask and t[3] == ("const", 0)) or (t[3] == mask and t[2] == ("const", 0)))) \
+                or (t[0] == "op" and t[1] in (">", "<") and ((t[2] == mask and t[3] == ("const", 0)) or (t[3] == mask and t[2] == ("const", 0))))
+        eng = Engine(F, S)
+        eng.analyze(fn, frozenset())
+        for st in find_calls(F, fn, lambda nd: (nd.get("fq") or "").endswith("XFile::NewDirectory")):
+            n += 1
+            site = final_site_facts(eng, st.owner, st.node["id"]) or set()
+            if st.subst:
+                site = {substitute(f, st.subst) for f in site}
+            good = any((f[0] == "true" and nonzero(f[1])) or (f[0] == "!=" and (nonzero(("op", "!=", f[1], f[2])))) or
+                       (f[0] == "<" and f[1] == ("const", 0) and f[2] == mask) for f in site)
+            inst = FW + "::FileWriter#directory-needs-CanOpenNew"
+            req = "a missing parent directory is created only when the open mode includes CanOpenNew"
+            if good:
+                out.append(ok("R-ORDER", inst, fn.loc(st.outer_id()), fn.qn, req, "the CanOpenNew test dominates NewDirectory"))
+            else:
+                out.append(bad("R-ORDER", inst, fn.loc(st.outer_id()), fn.qn, req,
+                               "NewDirectory is reached without the CanOpenNew flag having been tested: an open that is then refused leaves a new directory behind"))
+    return out, n
+
+
 def r_openmode(F, S, run):
     fn = F.fn(FW + "::TranslateFlags", nparams=2)
     en = F.enums.get(FW + "::OpenMode")
@@ -598,6 +634,9 @@ def check(F, run, tier):
     from . import c12 as _c12
     _o, _ = _c12.typed_helpers(F, S, run)
     run.add([o for o in _o if ("basic_string" in o.instance and o.instance.endswith("#length")) or o.instance.endswith("#always-resized")])
+    _od, _nd = directory_only_with_can_open_new(F, S)
+    run.add(_od)
+    run.floor("R-ORDER(directory creation)", _nd, 1)
     obs, n = resize_fill(F, S)
     run.add(obs)
     obs, n = r_narrow_prefix(F, S)
